@@ -398,7 +398,121 @@ func c18RunHistory(rng *rand.Rand) []string {
 	return progs
 }
 
+// c18ColdStart makes the FIRST library calls of this process from 16
+// goroutines released together: whatever the library sets up on first use
+// (tables, templates, caches) is then set up under contention. The inputs are
+// built without touching the library; the sequential reference is computed
+// afterwards in the same process. Mismatches are printed for the parent, data
+// races are reported by the race detector.
+func c18ColdStart(seed, run uint64) {
+	rng := rand.New(rand.NewPCG(seed*31+run, 0xc01d))
+	cm := ref.RenderFile(rng, []*ref.MCMap{ref.GenCMap(rng, "Cold")})
+	w := &ref.WFont{FontName: "Cold", Info: map[string]string{"FullName": "Cold Start"}, Private: map[string]string{}, StdEncoding: true,
+		Glyphs: []*ref.WGlyph{{Name: ".notdef", Den: 1, WX: 500}, {Name: "A", Den: 1, WX: 600, Cmds: []ref.WCmd{{Op: 'M', Args: []int64{10, 10}}, {Op: 'L', Args: []int64{200, 300}}, {Op: 'L', Args: []int64{50, 400}}, {Op: 'Z'}}}}}
+	fontBytes := ref.RenderType1(rng, w, &ref.WLayout{Container: []string{"pfa", "bin", "pfb", "plain"}[run%4], LenIV: 4})
+	afmText := []byte("StartFontMetrics 4.1\nFontName Cold\nStartCharMetrics 2\nC 65 ; WX 600 ; N A ; B 10 10 200 400 ;\nC 66 ; WX 610 ; N B ; B 0 0 100 100 ; L A fi ;\nEndCharMetrics\nEndFontMetrics\n")
+	font := &type1.Font{FontInfo: &type1.FontInfo{FontName: "ColdW", FontMatrix: [6]float64{0.001, 0, 0, 0.001, 0, 0}}, Private: &type1.PrivateDict{BlueScale: 0.039625, BlueShift: 7, BlueFuzz: 1},
+		Glyphs: map[string]*type1.Glyph{".notdef": {WidthX: 500}, "A": {WidthX: 600.5}}}
+	font.Glyphs["A"].MoveTo(10.5, 10)
+	font.Glyphs["A"].LineTo(200, 300.25)
+	font.Glyphs["A"].ClosePath()
+	metrics := &afm.Metrics{FontName: "ColdM", Glyphs: map[string]*afm.GlyphInfo{"A": {WidthX: 600}, "B": {WidthX: 610, Ligatures: map[string]string{"A": "fi", "B": "fl"}}}, Encoding: make([]string, 256)}
+	for i := range metrics.Encoding {
+		metrics.Encoding[i] = ".notdef"
+	}
+	metrics.Encoding[65], metrics.Encoding[66] = "A", "B"
+	ps := func(prog string) func() string {
+		return func() string {
+			intp := postscript.NewInterpreter()
+			intp.MaxOps = 10000
+			err := intp.ExecuteString(prog)
+			return fmt.Sprintf("%d objects, top %v, %v", len(intp.Stack), intp.Stack[max(0, len(intp.Stack)-1):], err)
+		}
+	}
+	calls := []func() string{
+		ps("1 2 add"), ps("/x { 1 2 add } bind def x"), ps("StandardEncoding 65 get"), ps("/CIDInit /ProcSet findresource length"), ps("<< /a 1 >> { exch pop } forall"),
+		ps("errordict length systemdict length"), ps("currentfile eexec\n" + hexSection("/y 2 def y ")),
+		func() string {
+			d, err := postscript.ReadCMap(bytes.NewReader(cm))
+			return fmt.Sprintf("%v %d %v", d["CMapName"], len(d), err)
+		},
+		func() string {
+			f, err := type1.Read(bytes.NewReader(fontBytes))
+			return fmt.Sprintf("%s %v", fontDigest(f), err)
+		},
+		func() string {
+			m, err := afm.Read(bytes.NewReader(afmText))
+			return fmt.Sprintf("%s %v", metricsDigest(m), err)
+		},
+		func() string {
+			var buf bytes.Buffer
+			err := font.Write(&buf, &type1.WriterOptions{Format: type1.FormatPFA})
+			return fmt.Sprintf("%s %v", sha(buf.Bytes()), err)
+		},
+		func() string {
+			var buf bytes.Buffer
+			_, _, err := font.WritePDF(&buf)
+			return fmt.Sprintf("%s %v", sha(buf.Bytes()), err)
+		},
+		func() string {
+			var buf bytes.Buffer
+			err := metrics.Write(&buf)
+			return fmt.Sprintf("%s %v", sha(buf.Bytes()), err)
+		},
+		func() string {
+			return fmt.Sprint(names.ToUnicode("A", false), names.ToUnicode("dalethatafpatah", false))
+		},
+		func() string { return fmt.Sprint(names.ToUnicode("a100", true)) },
+		func() string { return names.FromUnicode('A') + names.FromUnicode(0x20AC) + names.FromUnicode(0xFB01) },
+		func() string { return fmt.Sprint(names.IsValid("A"), names.IsValid(".notdef"), names.IsValid("1a")) },
+		func() string { return fmt.Sprint(font.GlyphList(), font.FontBBoxPDF(), metrics.GlyphList()) },
+	}
+	const G = 16
+	type rec struct {
+		call int
+		res  string
+	}
+	results := make([][]rec, G)
+	var start, done sync.WaitGroup
+	start.Add(1)
+	for g := 0; g < G; g++ {
+		done.Add(1)
+		seq := []int{(g + int(run)) % len(calls), (g*7 + int(run>>2)) % len(calls), rng.IntN(len(calls))}
+		if g%4 == 1 {
+			seq[0] = int(run) % 7 // several goroutines create their first interpreter at the same moment
+		}
+		go func(g int, seq []int) {
+			defer done.Done()
+			start.Wait()
+			for _, ci := range seq {
+				results[g] = append(results[g], rec{ci, calls[ci]()})
+			}
+		}(g, seq)
+	}
+	start.Done()
+	done.Wait()
+	refRes := make([]string, len(calls))
+	for i, f := range calls {
+		refRes[i] = f()
+	}
+	n := 0
+	for g := range results {
+		for _, rc := range results[g] {
+			n++
+			if rc.res != refRes[rc.call] {
+				fmt.Printf("MISMATCH cold-start#%d goroutine=%d concurrent=%s sequential=%s\n", rc.call, g, rc.res, refRes[rc.call])
+			}
+		}
+	}
+	fmt.Printf("COLDSTART %d\n", n)
+}
+
 func runC18(r *rt.Runner) {
+	if os.Getenv("VERIF_C18_CHILD") == "1" {
+		var run uint64
+		fmt.Sscan(os.Getenv("VERIF_C18_RUN"), &run)
+		c18ColdStart(r.Seed, run)
+	}
 	env := newPSEnv()
 	calls := buildCalls(r.Seed*7919+1, env)
 
@@ -543,6 +657,10 @@ func runC18(r *rt.Runner) {
 				switch {
 				case strings.HasPrefix(line, "RESULTS "):
 					fmt.Sscanf(line, "RESULTS %d", &nres)
+				case strings.HasPrefix(line, "COLDSTART "):
+					var nc int
+					fmt.Sscanf(line, "COLDSTART %d", &nc)
+					c.Runner().Count("first-use calls made concurrently at process start", int64(nc))
 				case strings.HasPrefix(line, "MISMATCH "):
 					nmis++
 					parts := strings.SplitN(line, " ", 3)
